@@ -84,8 +84,8 @@ bit and the (even, in-bounds) offset of a length-prefixed UTF-16 string -/
 def NameAt (r : Resources) (f : Nat) : RName → Prop
   | .id n => f = n ∧ n < 0x80000000
   | .wide ws =>
-    0x80000000 ≤ f ∧ (f - 0x80000000) % 2 = 0 ∧ (f - 0x80000000) + 2 + 2 * ws.length ≤ r.sec.size ∧
-    le16 r.sec (f - 0x80000000) = ws.length ∧ ws = wordsAt r.sec (f - 0x80000000 + 2) ws.length
+    0x80000000 ≤ f ∧ (f % 0x80000000) % 2 = 0 ∧ (f % 0x80000000) + 2 + 2 * ws.length ≤ r.sec.size ∧
+    le16 r.sec (f % 0x80000000) = ws.length ∧ ws = wordsAt r.sec (f % 0x80000000 + 2) ws.length
 
 instance (r f nm) : Decidable (NameAt r f nm) := by
   cases nm <;> unfold NameAt <;> exact inferInstance
@@ -387,5 +387,76 @@ def icoToTree (kind : Nat) (imgs : List IcoImage) : Node :=
       (.dir 0 (.cons (.id 1) (.dir 0 (.cons (.id 1033) (.data (groupBlob kind imgs) 0) .nil)) .nil)) .nil))
 
 def icoToResources (kind : Nat) (imgs : List IcoImage) : Resources := resourcesOf 0 (icoToTree kind imgs)
+
+/-! ### full traversal through the public API
+
+What a client sees that walks the tree with `entries()`, `name()`, `entry()`, `bytes()` and
+`code_page()`; `k` bounds the nesting depth followed (`diverge` when it is exceeded). -/
+
+/-- the stored form of a name reported by `DirectoryEntry::name` (never `Name::Str`) -/
+def Name.toRName : Name → RName
+  | .id n => .id n
+  | .wide ws => .wide ws
+  | .str _ => .id 0
+
+def readEntries (rec : Dir → Out Node) (r : Resources) : List DirEntry → Out Entries
+  | [] => .ok .nil
+  | e :: rest =>
+    match e.getName r with
+    | .ok nm =>
+      match e.entry r with
+      | .ok (.dir d) =>
+        match rec d with
+        | .ok ch =>
+          match readEntries rec r rest with
+          | .ok more => .ok (.cons nm.toRName ch more)
+          | o => o
+        | .err e => .err e
+        | .panic s => .panic s
+        | .ub s => .ub s
+        | .diverge => .diverge
+      | .ok (.data de) =>
+        match de.bytes r with
+        | .ok ref =>
+          match readEntries rec r rest with
+          | .ok more => .ok (.cons nm.toRName (.data (bytesAt r.sec ref.off ref.len) de.codePageOf) more)
+          | o => o
+        | .err e => .err e
+        | .panic s => .panic s
+        | .ub s => .ub s
+        | .diverge => .diverge
+      | .err e => .err e
+      | .panic s => .panic s
+      | .ub s => .ub s
+      | .diverge => .diverge
+    | .err e => .err e
+    | .panic s => .panic s
+    | .ub s => .ub s
+    | .diverge => .diverge
+
+def readDir (r : Resources) : Nat → Dir → Out Node
+  | 0, _ => .diverge
+  | k+1, d =>
+    match d.entries r with
+    | .ok es =>
+      match readEntries (readDir r k) r es with
+      | .ok ents => .ok (.dir d.named ents)
+      | .err e => .err e
+      | .panic s => .panic s
+      | .ub s => .ub s
+      | .diverge => .diverge
+    | .err e => .err e
+    | .panic s => .panic s
+    | .ub s => .ub s
+    | .diverge => .diverge
+
+/-- traverse everything from the root -/
+def readTree (r : Resources) (k : Nat) : Out Node :=
+  match root r with
+  | .ok d => readDir r k d
+  | .err e => .err e
+  | .panic s => .panic s
+  | .ub s => .ub s
+  | .diverge => .diverge
 
 end Pelite.Resources
